@@ -38,7 +38,7 @@ def main():
     try:
         for c in a.checks:
             t0 = time.time()
-            env = dict(os.environ, VERIF_SEED=a.seed)
+            env = dict(os.environ, VERIF_SEED=a.seed, VERIF_MUTANT_RUN="1")     # evidence files describe the unchanged tree only
             r = sh([os.path.join(VERIF, "check"), c, "--tier", a.tier], cwd=VERIF, env=env)
             lines = [l for l in r.stdout.split("\n") if l.startswith(("VIOLATION", "violation", "KNOWN", "[C", "INCONCLUSIVE", "HARNESS"))]
             results[c] = r.returncode
